@@ -134,7 +134,13 @@ func (c Cfg) randomScalar() *rapid.Generator[interface{}] {
 		case 5:
 			return primitive.DateTime(rapid.Int64Range(-100000, 100000).Draw(t, "dt"))
 		default:
-			return primitive.Binary{Subtype: rapid.SampledFrom([]byte{0, 2, 4, 128}).Draw(t, "st"), Data: rapid.SliceOfN(rapid.Byte(), 0, 4).Draw(t, "bd")}
+			b := primitive.Binary{Subtype: rapid.SampledFrom([]byte{0, 2, 4, 128}).Draw(t, "st"), Data: rapid.SliceOfN(rapid.Byte(), 0, 4).Draw(t, "bd")}
+			if b.Subtype == 2 && len(b.Data) == 0 {
+				// the driver's own codec does not round-trip an empty
+				// old-style (subtype 2) binary: it comes back as 4 zero bytes
+				b.Data = []byte{9}
+			}
+			return b
 		}
 	})
 }
